@@ -23,14 +23,13 @@ from ..dataflow import possibly_undefined
 
 MAIN = 'mininec.main'
 
-# explicit raises that the command line cannot trigger (frozen, one reason each)
-UNREACHABLE = {
-    'ValueError|mininec.Mininec.register_load|raise|Pulse tag must be >= 1':
-        'fix_distributed_loads passes p.idx of an existing pulse (>= 0)',
-    'ValueError|mininec.Mininec.register_load|raise|Invalid pulse tag %d':
-        'fix_distributed_loads passes p.idx of an existing pulse (< len(pulses))',
-    'ValueError|mininec.Distributed_Load.add_pulse|raise|%s can only be attached to pulses of its geo objects':
-        'fix_distributed_loads only pairs a junction pulse with the load of one of its two objects',
+# call paths on which the explicit raises cannot be triggered from the command line (frozen, one
+# reason each): a raise that can leave main ONLY through such a call is exempt
+EXEMPT_CALLS = {
+    'mininec.Mininec.fix_distributed_loads':
+        'called without user data: it attaches the distributed load of one of the two objects of an '
+        'existing junction pulse by that pulse\'s own index, so the range / ownership checks behind '
+        'register_load cannot fail',
 }
 
 
@@ -70,6 +69,12 @@ def run(ctx, ck):
     esc_keys = {}
     for s, path in esc:
         esc_keys[s.key] = (s, path)
+    # the same without the exempt calls: what remains escapes through user-driven paths
+    ea2 = ExcAnalysis(ctx, MAIN)
+    ea2.skip_callees = set(EXEMPT_CALLS)
+    for q_ in EXEMPT_CALLS:
+        m.func(q_)
+    user_keys = {s.key for s, path in ea2.escaping(mainf)}
     rule_of = {'raise': 'R-EXC.explicit-raise', 'lookup': 'R-EXC.lookup', 'convert': 'R-EXC.convert',
                'open': 'R-EXC.open', 'starcall': 'R-EXC.starcall'}
     seen = set()
@@ -81,9 +86,10 @@ def run(ctx, ck):
         if s.key in esc_keys:
             s2, path = esc_keys[s.key]
             via = ' -> '.join('%s:%d' % (f.qual.split('.', 1)[1], getattr(n, 'lineno', 0)) for f, n in path)
-            if s.key in UNREACHABLE:
+            if s.key not in user_keys:
+                via_q = [f_.qual for f_, n_ in path if f_.qual in EXEMPT_CALLS] or list(EXEMPT_CALLS)
                 ck.ob(rule, s.key, True, s.func.loc(s.node),
-                      'not caught, but cannot be triggered from the command line: %s' % UNREACHABLE[s.key])
+                      'reaches main only through %s: %s' % (via_q[0], EXEMPT_CALLS[via_q[0]]))
                 continue
             first = path[0][1] if path else s.node
             ck.ob(rule, s.key, False, s.func.loc(s.node),
@@ -92,9 +98,12 @@ def run(ctx, ck):
         else:
             ck.ob(rule, s.key, True, s.func.loc(s.node), '%s caught on every call path from main or '
                   'unreachable for the arguments main passes' % s.exc)
-    stale = [k for k in UNREACHABLE if k not in {s.key for s in all_sites}]
-    if stale:
-        raise AnalysisError('frozen unreachable table names raise sites that no longer exist: %s' % stale)
+
+    # implicit IndexError: user pulse numbers used as list indices
+    from ._bounds import check_pulse_bounds
+    ck.rule('R-BOUNDS.pulse-index', 'user pulse number checked against the length of the list it indexes')
+    nb = check_pulse_bounds(ctx, ck, ['mininec.Mininec.register_source', 'mininec.Mininec.register_load'])
+    ck.floor('user-indexed pulse lists', nb, 1)
 
     # ---------------------------------------------------------------- D3 taper assertions
     n_as = 0
